@@ -38,6 +38,14 @@ TBB == IsEvent("BB") /\ LET e == Log[l] IN
          /\ Chk("C06:binomial-bounds-order", Coherent(e))
          /\ Chk("C06:binomial-bounds-exact", e.thetaOne => \A k \in 1..3 : e.lb[k] = e.count /\ e.ub[k] = e.count /\ e.est = e.count)
          /\ UNCHANGED <<cell, acc>>
+\* ICON estimator of the CPC merged form as a function of (lg_k, C): non-decreasing in C (the documented reason for its
+\* crossover thresholds), never below the number of coupons, and within a tenth of the published RSE of an independent
+\* evaluation of its definition (expected-coupon-count inversion computed by the harness)
+TIcon == IsEvent("ICON") /\ LET e == Log[l] IN
+         /\ Chk("C06:icon-monotone", ~e.first => acc.lastEst <= e.est)
+         /\ Chk("C06:icon-ge-coupons", e.cD <= e.est)
+         /\ Chk("C06:icon-matches-definition", e.c >= 2^e.lgk \div 4 => Abs(e.devPpm) * 10 <= RsePpm("cpc-union", e.lgk))
+         /\ acc' = [lastEst |-> e.est] /\ UNCHANGED cell
 TBBInvalid == IsEvent("BBInvalid") /\ Chk("C06:invalid-arguments-refused", Log[l].refused = Log[l].of) /\ UNCHANGED <<cell, acc>>
 
 TBeginTrials == IsEvent("Begin") /\ Log[l].mode = "trials" /\ LET e == Log[l] IN
@@ -50,11 +58,12 @@ TTrial == IsEvent("Trial") /\ LET e == Log[l]
          \* a Theta sketch (or union result) that is not in estimation mode is exact
          /\ Chk("C06:exact-mode", (cell.family \in {"theta", "theta-union"} /\ cell.n <= 2^cell.lgk) =>
                                     e.errPpm = 0 /\ \A k \in 1..3 : e.lb[k] = e.est /\ e.ub[k] = e.est)
-         /\ acc' = [t |-> acc.t + 1, sumZ |-> acc.sumZ + z, sumZ2 |-> acc.sumZ2 + (IF Abs(z) > 1000 THEN 1000000 ELSE z * z),
+         /\ acc' = [t |-> acc.t + 1, sumZ |-> acc.sumZ + (IF z > 1000 THEN 1000 ELSE IF z < -1000 THEN -1000 ELSE z), sumZ2 |-> LET zz == IF Abs(z) > 1000 THEN 1000000 ELSE z * z IN      \* saturating: stays within 32 bits
+                                  IF acc.sumZ2 > 2000000000 - zz THEN 2000000000 ELSE acc.sumZ2 + zz,
                     cov |-> [k \in 1..3 |-> acc.cov[k] + (IF e.lb[k] <= e.nD /\ e.nD <= e.ub[k] THEN 1 ELSE 0)]]
          /\ UNCHANGED cell
 TVerdict == IsEvent("Verdict") /\ LET T == cell.T  s == Isqrt(T)
-                                      B == 105 + (600 * 1000) \div Isqrt(2 * T * 1000000) IN
+                                      B == 105 + (600 * 100) \div Isqrt(2 * T * 10000) IN
          /\ Chk("C06:trial-count", acc.t = T)
          \* negligible bias: |mean z| <= 6/sqrt(T) + 0.05 (in RSE units)
          /\ Chk("C06:bias", Abs(acc.sumZ) <= 600 * s + 600 + 5 * T)
@@ -67,6 +76,6 @@ TVerdict == IsEvent("Verdict") /\ LET T == cell.T  s == Isqrt(T)
          /\ UNCHANGED <<cell, acc>>
 
 TInit == l = 1 /\ cell = <<>> /\ acc = <<>>
-TNext == TBeginGrid \/ TBB \/ TBBInvalid \/ TBeginTrials \/ TTrial \/ TVerdict
+TNext == TBeginGrid \/ TBB \/ TIcon \/ TBBInvalid \/ TBeginTrials \/ TTrial \/ TVerdict
 TSpec == TInit /\ [][TNext]_tvars
 ====
